@@ -471,7 +471,21 @@ func sameConst(a, b *ssa.Const) bool {
 }
 
 // knownNonNil: values that are never nil.
-func knownNonNil(v ssa.Value) bool {
+func knownNonNil(v ssa.Value) bool { return knownNonNilD(v, 0) }
+
+func knownNonNilD(v ssa.Value, depth int) bool {
+	if phi, ok := v.(*ssa.Phi); ok {
+		// a merge of values each of which is known not to be nil
+		if depth > 3 {
+			return false
+		}
+		for _, e := range phi.Edges {
+			if !knownNonNilD(e, depth+1) {
+				return false
+			}
+		}
+		return len(phi.Edges) > 0
+	}
 	switch x := v.(type) {
 	case *ssa.Alloc, *ssa.MakeInterface, *ssa.MakeClosure, *ssa.MakeMap, *ssa.MakeSlice, *ssa.MakeChan, *ssa.FieldAddr, *ssa.IndexAddr, *ssa.Function, *ssa.Global:
 		return true
@@ -1156,4 +1170,105 @@ func globalSingleInit(g *ssa.Global) ssa.Value {
 		return val
 	}
 	return nil
+}
+
+// reachingFieldStore: the value field fa.Field of the local struct variable a (fa.X == a) holds
+// at instruction `at`, when ONE store to that field is the last write to it on every path from
+// the entry — a store to the whole variable (a struct copy) counts as a write of unknown value.
+// The variable may be used only through loads, stores and field addresses that are loaded/stored.
+func reachingFieldStore(a *ssa.Alloc, field int, at ssa.Instruction) ssa.Value {
+	if a.Parent() != at.Parent() {
+		return nil
+	}
+	isFieldStore := map[ssa.Instruction]ssa.Value{}
+	isKill := map[ssa.Instruction]bool{}
+	laterEscape := func(e ssa.Instruction) bool {
+		// the variable's address goes somewhere (&x appended to a list, say). Harmless when that
+		// happens only after `at` for the object at hand: `at` comes first, and from the escape
+		// `at` is reached again only through the allocation (a new object per iteration)
+		if !precedes(at, e) {
+			return false
+		}
+		return reachesWithout(e, func(x ssa.Instruction) bool { return x == at }, func(x ssa.Instruction) bool { return x == ssa.Instruction(a) }) == nil
+	}
+	for _, r := range *a.Referrers() {
+		switch u := r.(type) {
+		case *ssa.Store:
+			if u.Addr != ssa.Value(a) {
+				if !laterEscape(u) {
+					return nil
+				}
+				continue
+			}
+			isKill[u] = true
+		case *ssa.UnOp, *ssa.DebugRef:
+		case *ssa.FieldAddr:
+			for _, r2 := range *u.Referrers() {
+				switch s := r2.(type) {
+				case *ssa.Store:
+					if s.Addr != ssa.Value(u) {
+						return nil
+					}
+					if u.Field == field {
+						isFieldStore[s] = s.Val
+					}
+				case *ssa.UnOp:
+					if s.Op != token.MUL {
+						return nil
+					}
+				case *ssa.DebugRef:
+				default:
+					if u.Field == field {
+						return nil // the field's address goes somewhere else
+					}
+				}
+			}
+		default:
+			// the variable's address goes somewhere (&x appended to a list, say). Harmless when
+			// that happens only after `at` for the object at hand: `at` comes first, and from the
+			// escape `at` is reached again only through the allocation (a new object per iteration)
+			e, isIn := r.(ssa.Instruction)
+			if !isIn || !laterEscape(e) {
+				return nil
+			}
+		}
+	}
+	var found ssa.Instruction
+	seen := map[*ssa.BasicBlock]bool{}
+	ok := true
+	var walk func(b *ssa.BasicBlock, from int)
+	walk = func(b *ssa.BasicBlock, from int) {
+		if !ok {
+			return
+		}
+		for i := from; i >= 0; i-- {
+			in := b.Instrs[i]
+			if isKill[in] {
+				ok = false
+				return
+			}
+			if _, is := isFieldStore[in]; is {
+				if found != nil && found != in {
+					ok = false
+				}
+				found = in
+				return
+			}
+		}
+		if len(b.Preds) == 0 {
+			ok = false
+			return
+		}
+		for _, p := range b.Preds {
+			if !seen[p] {
+				seen[p] = true
+				walk(p, len(p.Instrs)-1)
+			}
+		}
+	}
+	walk(at.Block(), instrIndex(at)-1)
+	if !ok || found == nil {
+		return nil
+	}
+	return isFieldStore[found]
 }
